@@ -12,6 +12,7 @@ import (
 const (
 	FamWire     = "wire"     // dependency graphs, no substitution
 	FamByName   = "byname"   // wire with many by-name points, more of them unsatisfiable
+	FamWrapName = "wrapname" // acyclic: a named component is substituted by a wrapper of another type that alone fits the requesting field
 	FamLarge    = "large"    // wire with 20-120 types / up to some hundred components (thorough tier)
 	FamSubst    = "subst"    // wire + substituting post-processors
 	FamLife     = "life"     // observing processors, runners, lazy components
@@ -164,6 +165,8 @@ func Generate(seed uint64, id, family string) *sdl.Program {
 			}
 		}
 		return p
+	case FamWrapName:
+		return genWrapName(r, seed, id)
 	case FamSubst:
 		p := genGraph(r, seed, id, family, substKnobs(r))
 		addSubstProcs(r, p)
